@@ -5,6 +5,7 @@
 import XzVerif.Model.Crc
 import XzVerif.Gen.C14
 import XzVerif.Lemmas.Crc
+import XzVerif.Lemmas.CrcExtra
 
 namespace XzVerif.C14
 open XzVerif.Crc
@@ -54,6 +55,64 @@ theorem crc64_generic_chunking (a1 a2 a3 : Nat) (a b : List UInt8) (init : BitVe
     crc64Generic Gen.C14.crc64Table a2 b (crc64Generic Gen.C14.crc64Table a1 a init)
       = crc64Generic Gen.C14.crc64Table a3 (a ++ b) init := by
   simp only [crc64_generic_eq_ref, crc64_chunking]
+
+/-! ### the size-optimised variants (crc32_small.c / crc64_small.c) -/
+
+/-- The `HAVE_SMALL` CRC32 (table generated at run time from the polynomial, byte-at-a-time loop) is the standard CRC-32. -/
+theorem crc32_small_eq_ref (bs : List UInt8) (init : BitVec 32) : crcSmall P32 bs init = crc32Ref bs init :=
+  crcSmall_eq P32 bs init
+
+theorem crc64_small_eq_ref (bs : List UInt8) (init : BitVec 64) : crcSmall P64 bs init = crc64Ref bs init :=
+  crcSmall_eq P64 bs init
+
+/-! ### constants of the carry-less-multiplication implementation (crc_x86_clmul.h)
+
+  The CLMUL *data path* (folding, byte shuffles, Barrett reduction) is NOT modelled: it is tied to the reference by the
+  correspondence run only. What is proved here: the constants the code uses today (extracted by running the compiled
+  function, `[]` if the build has no CLMUL code) are the ones defined by crc_clmul_consts_gen.c, i.e.
+  `x^k mod P` for the fold distances and `floor(x^128 / P)` for Barrett, in reflected representation. -/
+
+theorem clmul32_consts : Gen.C14.clmul32 = [] ∨ Gen.C14.clmul32 = clmulConsts P32in64 := by decide +kernel
+
+theorem clmul64_consts : Gen.C14.clmul64 = [] ∨ Gen.C14.clmul64 = clmulConsts P64 := by decide +kernel
+
+theorem clmul_vmasks : Gen.C14.clmulVmasks = [] ∨ Gen.C14.clmulVmasks = vmasksSpec := by decide +kernel
+
+/-- The four fold constants are powers of `x` modulo the polynomial: `fold512 = (x^(511) , x^(575)) mod P`,
+    `fold128 = (x^127, x^191) mod P` (exponents `bits + 63`). -/
+theorem clmul_fold_consts_are_xpow (p : BitVec 64) :
+    clrem p (4 * 128 - 64) = xpowMod p 511 ∧ clrem p (4 * 128) = xpowMod p 575 ∧
+    clrem p (128 - 64) = xpowMod p 127 ∧ clrem p 128 = xpowMod p 191 :=
+  ⟨clrem_eq_xpowMod p _ (by decide), clrem_eq_xpowMod p _ (by decide), clrem_eq_xpowMod p _ (by decide),
+   clrem_eq_xpowMod p _ (by decide)⟩
+
+/-! ### error detection (used by C05) -/
+
+/-- Any change confined to one byte of the message changes the CRC-32 (whatever the other bytes and the initial value). -/
+theorem crc32_byte_error_detected (a t : List UInt8) (b b' : UInt8) (h : b ≠ b') (init : BitVec 32) :
+    crc32Ref (a ++ b :: t) init ≠ crc32Ref (a ++ b' :: t) init := by
+  intro e
+  exact refRaw_byte_change P32 (by decide) (by decide) a t b b' h _ (BitVec.not_inj.mp e)
+
+theorem crc64_byte_error_detected (a t : List UInt8) (b b' : UInt8) (h : b ≠ b') (init : BitVec 64) :
+    crc64Ref (a ++ b :: t) init ≠ crc64Ref (a ++ b' :: t) init := by
+  intro e
+  exact refRaw_byte_change P64 (by decide) (by decide) a t b b' h _ (BitVec.not_inj.mp e)
+
+/-- A single flipped bit anywhere in the message changes the CRC-32. -/
+theorem crc32_flip_ne (m : List UInt8) (i : Nat) (hi : i < 8 * m.length) (init : BitVec 32) :
+    crc32Ref (flipBit m i) init ≠ crc32Ref m init := by
+  obtain ⟨a, b, t, hm, hf⟩ := flipBit_split m i (by omega)
+  rw [hf]
+  conv => rhs; rw [hm]
+  exact (crc32_byte_error_detected a t b _ (mask_ne b i) init).symm
+
+theorem crc64_flip_ne (m : List UInt8) (i : Nat) (hi : i < 8 * m.length) (init : BitVec 64) :
+    crc64Ref (flipBit m i) init ≠ crc64Ref m init := by
+  obtain ⟨a, b, t, hm, hf⟩ := flipBit_split m i (by omega)
+  rw [hf]
+  conv => rhs; rw [hm]
+  exact (crc64_byte_error_detected a t b _ (mask_ne b i) init).symm
 
 /-- non-vacuity / sanity: the classic check value of "123456789". -/
 example : crc32Ref [0x31,0x32,0x33,0x34,0x35,0x36,0x37,0x38,0x39] 0 = 0xCBF43926#32 := by decide +kernel
